@@ -69,7 +69,16 @@ class Probe:
     def install(self):
         from epydemic import Dynamics
         self._orig = Dynamics.eventRateDistribution
+        self._orig_setup = Dynamics.setUp
         probe = self
+
+        def setup(dyn, params):
+            # every run (earlier runs on the same object, runs of an earlier experiment that prepared the prototype) starts
+            # a new record: only the last run is the observed one, whether or not it makes a single Gillespie iteration
+            probe.steps = []
+            probe.orc = None
+            return probe._orig_setup(dyn, params)
+        Dynamics.setUp = setup
 
         def erd(dyn, t):
             import epydemic.stochasticdynamics as sd
@@ -103,8 +112,12 @@ class Probe:
         from epydemic import Dynamics
         if self._orig is not None:
             Dynamics.eventRateDistribution = self._orig
+            Dynamics.setUp = self._orig_setup
 
     def finish(self):
+        if self.orc is None:
+            import epydemic.stochasticdynamics as sd
+            self.orc = sd.rng           # a run without a single iteration
         log = list(getattr(self.orc, 'log', [])) if self.orc is not None else []
         if self.steps:
             self.steps[-1]['log1'] = len(log)
@@ -358,6 +371,20 @@ def direct_c02(case, obs):
                     v.append({'signature': 'element-not-in-locus-at-the-call:' + tag, 'detail': dict(ctx, element=fe, locus=members)})
                 if nt is not None and ft != nt:
                     v.append({'signature': 'event-time-is-not-the-new-time:' + tag, 'detail': dict(ctx, event_time=ft, next_time=nt)})
+    # -- the loop goes on as long as the chain does: a run that stops before its maximum time stops because nothing can
+    # happen any more (total rate 0, nothing pending) or because the process itself is at equilibrium (Opinion's own test)
+    maxtime = case['table']['maxtime'] if case['kind'] == 'table' else case['maxtime']
+    end = obs.get('time')
+    own_equilibrium = case['kind'] != 'table' and case.get('model') in ('Opinion', 'Vaccinate')
+    if end is not None and end < maxtime and not own_equilibrium:
+        if not steps:
+            v.append({'signature': 'run-ended-early-without-looking-at-the-rates:' + tag, 'detail': {'TIME': end, 'maximum_time': maxtime}})
+        elif exact_total(steps[-1]['rates']) != 0:
+            v.append({'signature': 'run-ended-early-although-events-were-possible:' + tag,
+                      'detail': {'TIME': end, 'maximum_time': maxtime, 'rates_at_last_look': steps[-1]['rates'], 'names': steps[-1]['names']}})
+    # -- and it is judged at all: events without a single look at the rate table mean the oracle saw nothing
+    if (obs.get('events') or 0) > 0 and not steps and case['kind'] != 'table':
+        v.append({'signature': 'events-fired-but-the-rate-distribution-was-never-consulted:' + tag, 'detail': {'events': obs.get('events')}})
     seen = {}
     for x in v:
         seen.setdefault(x['signature'], x)
